@@ -211,3 +211,23 @@ impl VDestBe {
         requires w.data_copied@ && w.trees_copied@ && w.index_flushed@,
     { unimplemented!() }
 }
+
+// ---- rewrite: new snapshots are saved before the old ones are forgotten ----
+pub struct RewriteWorld { pub new_saved: Ghost<bool> }
+pub struct RewriteOptions { pub forget: bool, pub dry_run: bool }
+#[verifier::external_body]
+pub fn vclone_snapshots(v: &Vec<SnapshotFile>) -> (r: Vec<SnapshotFile>) ensures r@ == v@, { unimplemented!() }
+#[verifier::external_body]
+pub fn vsnapshot_ids(v: &Vec<SnapshotFile>) -> (r: Vec<SnapshotId>) ensures r@.len() == v@.len(), { unimplemented!() }
+pub struct VRepoRw { pub _opaque: u64 }
+impl VRepoRw {
+    #[verifier::external_body]
+    pub fn vsave_snapshots(&self, snaps: Vec<SnapshotFile>, w: &mut RewriteWorld) -> (r: RusticResult<()>)
+        ensures r is Ok ==> final(w).new_saved@,
+    { unimplemented!() }
+    // PRECONDITION: the rewritten snapshots replacing these were saved
+    #[verifier::external_body]
+    pub fn vdelete_snapshots(&self, ids: &Vec<SnapshotId>, w: &RewriteWorld) -> (r: RusticResult<()>)
+        requires w.new_saved@,
+    { unimplemented!() }
+}
